@@ -7,20 +7,25 @@ Open Scope Z_scope.
 
 (** extended Euclid on (a, b) carrying coefficients with  a = sa * A,  b = sb * A  (mod Q) *)
 Function egcd_wf (a b sa sb : Z) {measure Z.to_nat a} : Z * Z :=
-  if a <=? 0 then (b, sb) else egcd_wf (b mod a) a (sb - b / a * sa) sa.
+  if a <=? 0 then (b, sb) else
+  match Z.div_eucl b a with (k, r) => egcd_wf r a (sb - k * sa) sa end.   (* one division per step: k = b / a, r = b mod a *)
 Proof.
-  intros a b sa sb H. apply Z.leb_gt in H.
-  pose proof (Z.mod_pos_bound b a H). lia.
+  intros a b sa sb H k r E. apply Z.leb_gt in H.
+  pose proof (Z.mod_pos_bound b a H) as Hm. unfold Z.modulo in Hm. rewrite E in Hm. lia.
 Defined.
 
 Lemma egcd_wf_spec A Q : forall a b sa sb, 0 <= a -> 0 <= b ->
   (Q | a - sa * A) -> (Q | b - sb * A) ->
   let '(g, s) := egcd_wf a b sa sb in (Q | g - s * A) /\ Zis_gcd a b g /\ 0 <= g.
 Proof.
-  intros a b sa sb. functional induction (egcd_wf a b sa sb) as [a b sa sb E|a b sa sb E IH]; intros Ha Hb Da Db.
+  intros a b sa sb. functional induction (egcd_wf a b sa sb) as [a b sa sb E|a b sa sb E k r E2 IH]; intros Ha Hb Da Db.
   - apply Z.leb_le in E. assert (a = 0) by lia. subst a. split; [exact Db|]. split; [|exact Hb].
     apply Zis_gcd_sym, Zis_gcd_0.
-  - apply Z.leb_gt in E. pose proof (Z.mod_pos_bound b a E) as Hm.
+  - apply Z.leb_gt in E.
+    assert (Hk : k = b / a) by (unfold Z.div; now rewrite E2).
+    assert (Hr : r = b mod a) by (unfold Z.modulo; now rewrite E2).
+    subst k r.
+    pose proof (Z.mod_pos_bound b a E) as Hm.
     assert (D' : (Q | b mod a - (sb - b / a * sa) * A)).
     { replace (b mod a - (sb - b / a * sa) * A) with ((b - sb * A) - (b / a) * (a - sa * A)).
       - apply Z.divide_sub_r; [exact Db|]. now apply Z.divide_mul_r.
